@@ -150,11 +150,8 @@ fn test(c: &Case) -> TestResult {
             // keeps (only that it is the same name ignoring case, checked above)
             vensure!(got == s, "c19-interned-spelling", "interned name {s:?} reads back as {got:?}");
         }
-        if c.ctor[i] % N_CTORS == 5 {
-            let mut m = s.clone();
-            let _ = OwnedVarName::from_mut_str(&mut m);
-            vensure!(m == upper, "c19-normalise", "from_mut_str left its argument as {m:?}");
-        }
+        // (whether `from_mut_str` also rewrites its argument is documented as "potentially" and is
+        // not part of the statement: only the returned name is checked)
         // owned and borrowed view of the same value agree
         let v: &VarName = o.borrow();
         vensure!(record(o) == record(v), "c19-borrow-hash", "owned and borrowed hash streams differ for {got:?}");
